@@ -137,6 +137,35 @@ def check_render(rep, d, tmp):
     plt.close('all')
 
 
+def quantum_circuits():
+    """circuits with the boxes that have their own drawing code in discopy.quantum.drawing (measurements, discards, mixed
+    states, encodings, kets, bras, controlled gates, swaps of bits and qubits), on wires of both kinds"""
+    from discopy.quantum import circuit as qc, gates
+    bit, qubit, Id = qc.bit, qc.qubit, qc.Id
+    return [qc.Discard(qubit @ bit), qc.Discard(bit @ qubit) @ Id(bit), qc.MixedState(bit @ qubit @ qubit).dagger(),
+            Id(bit) @ qc.MixedState(qubit @ bit) >> qc.Discard(bit @ qubit) @ Id(bit), qc.MixedState(qubit @ bit),
+            gates.Ket(0, 1) >> gates.H @ gates.X >> gates.CX >> qc.Measure() @ qc.Discard(),
+            gates.Ket(0) >> gates.Rx(0.25) >> qc.Measure(destructive=False) >> gates.X @ Id(bit) >> qc.Discard() @ Id(bit),
+            qc.Measure(2) >> qc.Swap(bit, bit) >> qc.Encode(2) >> gates.CZ >> gates.Bra(0, 1),
+            gates.Bits(1) @ gates.Ket(0) >> qc.Swap(bit, qubit) >> qc.Measure(override_bits=True, destructive=False),
+            gates.CRz(0.5) >> gates.SWAP >> gates.Controlled(gates.S) >> qc.Measure() @ qc.Measure(),
+            qc.Encode(constructive=False) >> qc.Measure(destructive=False)]
+
+
+def check_render_options(rep, d, tmp):
+    """the documented drawing parameters passed explicitly (they are forwarded to the box-drawing helpers)"""
+    r = repr(d)
+    for opts in (dict(draw_box_labels=True), dict(draw_box_labels=False), dict(draw_type_labels=False), dict(draw_box_labels=False, draw_type_labels=False),
+                 dict(figsize=(3, 3), fontsize=8, margins=(.1, .1)), dict(color='red'), dict(aspect='equal', nodesize=.5)):
+        for kind, kw in (('matplotlib', dict(path=os.path.join(tmp, 'o.png'))), ('tikz', dict(path=os.path.join(tmp, 'o.tikz'), to_tikz=True))):
+            rep.count('render.options.' + kind)
+            got = common.outcome(lambda: d.draw(show=False, **dict(kw, **opts)))
+            if got[0] != 'ok':
+                rep.fail('C20:render.options.' + kind, 'the %s back-end raised %r with %r' % (kind, got[1], opts), r)
+    import matplotlib.pyplot as plt
+    plt.close('all')
+
+
 def check_ports(rep, d):
     """graph-level sanity for diagrams with special boxes (spiders, wires drawn as boxes, bubbles): every node has
     coordinates, every wire ends somewhere (no port without its incoming / outgoing edge), every edge points downwards"""
@@ -308,6 +337,13 @@ def run(tier, seed=0, shard=(0, 1)):
                 check_ports(rep, d)
                 check_render(rep, d, tmp)
             check_redraw(rep, tmp)
+        if shard[0] == 3 % shard[1]:
+            for d in quantum_circuits():
+                rep.case(('quantum circuit', repr(d)))
+                check_render(rep, d, tmp)
+                check_render_options(rep, d, tmp)
+            for d in specials()[:6]:
+                check_render_options(rep, d, tmp)
         # boxes of every arity 0..3 -> 0..3 whose wires all have different types (scalars, states, effects included),
         # alone and between two wires: laid out and rendered on both back-ends
         z = Ty('z')
